@@ -28,6 +28,21 @@ Proof.
   split; [exact Hs | apply canon_join; assumption].
 Qed.
 
+(* a static upstream that passed config.go's validation (scheme in its list, host name or IP, numeric port)
+   is well formed in the sense the theorems need *)
+Lemma static_upstream_wf sch h p :
+  forallb (fun s => match connect_handler s, ptype_of_scheme s with Some _, Some _ => true | _, _ => false end)
+          upstream_supported_schemes = true ->
+  mem sch upstream_supported_schemes = true ->
+  has_byte 91 h = false -> has_byte 93 h = false -> valid_port16 p = true ->
+  presult_wf (PUrl sch (join_host_port h p)).
+Proof.
+  intros Hall Hm H1 H2 Hv. unfold mem in Hm. apply existsb_exists in Hm as [x [Hin Hx]].
+  apply str_eqb_eq in Hx. subst x. rewrite forallb_forall in Hall. specialize (Hall sch Hin).
+  cbn [presult_wf]. split; [|apply canon_join; assumption].
+  destruct (connect_handler sch); [|discriminate]. destruct (ptype_of_scheme sch); [discriminate | discriminate].
+Qed.
+
 Lemma presult_hop_round h : presult_hop (hop_presult h) = h.
 Proof. destruct h as [|ty hp|]; try reflexivity. destruct ty; reflexivity. Qed.
 
@@ -38,6 +53,7 @@ Section Route.
   Hypothesis Hsw : connect_switch =
     [(b "http", b "connectHTTP"); (b "https", b "connectHTTP"); (b "socks5", b "connectSOCKS5")].
   Hypothesis Htls : dialvia_http_tls_scheme = b "https".
+  Hypothesis Hsocks : transport_socks_schemes = [b "socks5"; b "socks5h"].
   Hypothesis Hshared : connect_uses_proxy_func = true /\ transport_shares_proxy_func = true.
   Hypothesis Hprec : forall cfg t, proxy_for cfg t = spec_proxy cfg t.
   Hypothesis Hpac : forall r, pac_proxy r = hop_presult (spec_pac r).
@@ -116,7 +132,7 @@ Section Route.
     - destruct Hwf as [Hs Hc]. unfold presult_hop.
       destruct (ptype_of_scheme sch) as [ty|] eqn:Ety; [|congruence].
       unfold spec_route_hop, spec_wire, route_connect, route_plain.
-      rewrite (canon_canonical_addr _ _ Hc).
+      rewrite (canon_canonical_addr _ _ Hc), Hsocks.
       destruct (ptype_cases _ _ Ety) as [[-> ->]|[[-> ->]|[-> ->]]].
       + rewrite handler_http, Htls, (canon_connect_addr _ _ Hc), !dial_redirect_is_spec.
         destruct (t_kind t); reflexivity.
